@@ -420,7 +420,7 @@ def c09_strata(V):
         out.append(["import", m])
     for which in ["nscat", "nsld", "xsld", "volume", "activation", "d2o_match", "fasta_const",
                   "emission_table", "xsld_table", "nsld_table", "list", "mff", "f0", "refraction", "composite",
-                  "d2o_sld", "fasta_seq", "formula_methods", "show_table", "iadd"]:
+                  "d2o_sld", "fasta_seq", "formula_methods", "show_table", "iadd", "new_isotope", "cromermann"]:
         out.append(("calc", which))
     for t in NSF_TABLES:
         out.append(["calc", "public", "nsf_tables", t])
